@@ -359,3 +359,192 @@ func (w *World) storeEvents(addrs ...string) func(ssa.Instruction) string {
 		return "set:" + a + "=" + w.Canon(st.Val)
 	}
 }
+
+// ---- atoms from canonical condition strings (what the rules were written with)
+
+// splitTopLevel finds the comparison operator of "(L op R)" at parenthesis depth 1.
+func splitTopLevel(s string) (l, op, r string, ok bool) {
+	if len(s) < 2 || s[0] != '(' || s[len(s)-1] != ')' {
+		return "", "", "", false
+	}
+	depth := 0
+	for i := 0; i < len(s); i++ {
+		switch s[i] {
+		case '(', '[':
+			depth++
+		case ')', ']':
+			depth--
+			if depth == 0 && i != len(s)-1 {
+				return "", "", "", false // "(a)(b)": not one parenthesised comparison
+			}
+		case ' ':
+			if depth != 1 {
+				continue
+			}
+			for _, o := range []string{" <= ", " >= ", " == ", " != ", " < ", " > "} {
+				if strings.HasPrefix(s[i:], o) {
+					return s[1:i], strings.TrimSpace(o), s[i+len(o) : len(s)-1], true
+				}
+			}
+		}
+	}
+	return "", "", "", false
+}
+
+var reThreeWay = regexp.MustCompile(`^(?:bytes\.Compare\((.+), (.+)\)|(.+)\.(?:Cmp|Compare)\((.+)\))$`)
+
+// splitArgs splits "a, b" at the top-level comma.
+func splitArgs2(s string) (string, string, bool) {
+	depth := 0
+	for i := 0; i < len(s); i++ {
+		switch s[i] {
+		case '(', '[':
+			depth++
+		case ')', ']':
+			depth--
+		case ',':
+			if depth == 0 && strings.HasPrefix(s[i:], ", ") {
+				return s[:i], s[i+2:], true
+			}
+		}
+	}
+	return "", "", false
+}
+
+// atomFromCanon parses a canonical condition string into an atom.
+func atomFromCanon(s string) (atom, bool) {
+	neg := false
+	for strings.HasPrefix(s, "!") {
+		neg = !neg
+		s = s[1:]
+	}
+	var a atom
+	if l, op, r, ok := splitTopLevel(s); ok {
+		rel := map[string]relSet{"<": relLT, "<=": relLT | relEQ, ">": relGT, ">=": relGT | relEQ, "==": relEQ, "!=": relLT | relGT}[op]
+		switch {
+		case r == "false" || r == "true":
+			inner, ok := atomFromCanon(l)
+			if !ok {
+				return atom{}, false
+			}
+			if (r == "true") != (op == "==") {
+				inner.Rel = relAll &^ inner.Rel
+			}
+			a = inner
+		case isIntLit(r) && threeWayOperands(l) != nil:
+			ops := threeWayOperands(l)
+			k := atoiSafe(r)
+			a = mkAtom(ops[0], signSet(rel, k, false), ops[1])
+		case isIntLit(l) && threeWayOperands(r) != nil:
+			ops := threeWayOperands(r)
+			k := atoiSafe(l)
+			a = mkAtom(ops[0], signSet(rel, k, true), ops[1])
+		default:
+			a = mkAtom(l, rel, r)
+		}
+	} else if strings.HasPrefix(s, "bytes.Equal(") && strings.HasSuffix(s, ")") {
+		x, y, ok := splitArgs2(s[len("bytes.Equal(") : len(s)-1])
+		if !ok {
+			return atom{}, false
+		}
+		a = mkAtom(x, relEQ, y)
+	} else {
+		a = mkAtom(s, relEQ, "true")
+	}
+	if neg {
+		a.Rel = relAll &^ a.Rel
+	}
+	return a, true
+}
+
+func threeWayOperands(s string) []string {
+	if strings.HasPrefix(s, "bytes.Compare(") && strings.HasSuffix(s, ")") {
+		if x, y, ok := splitArgs2(s[len("bytes.Compare(") : len(s)-1]); ok {
+			return []string{x, y}
+		}
+		return nil
+	}
+	// X.Cmp(Y) / X.Compare(Y): the last top-level ".Cmp(" / ".Compare("
+	for _, m := range []string{".Cmp(", ".Compare("} {
+		if i := strings.LastIndex(s, m); i > 0 && strings.HasSuffix(s, ")") {
+			x, y := s[:i], s[i+len(m):len(s)-1]
+			if balanced(x) && balanced(y) {
+				return []string{x, y}
+			}
+		}
+	}
+	return nil
+}
+
+func balanced(s string) bool {
+	d := 0
+	for i := 0; i < len(s); i++ {
+		switch s[i] {
+		case '(', '[':
+			d++
+		case ')', ']':
+			d--
+			if d < 0 {
+				return false
+			}
+		}
+	}
+	return d == 0
+}
+
+func isIntLit(s string) bool {
+	if s == "" {
+		return false
+	}
+	for i, c := range s {
+		if c == '-' && i == 0 && len(s) > 1 {
+			continue
+		}
+		if c < '0' || c > '9' {
+			return false
+		}
+	}
+	return true
+}
+
+func atoiSafe(s string) int {
+	n := 0
+	fmt.Sscan(s, &n)
+	return n
+}
+
+// underFact: block b executes only when the fact holds — some If compares the
+// fact's operands and the edge that dominates b admits only relations the fact
+// admits. Spelling-independent (inverted tests, early returns, Cmp/Lt/Equal).
+func (w *World) underFact(b *ssa.BasicBlock, f atom) bool {
+	for _, blk := range b.Parent().Blocks {
+		ifi, ok := lastInstr(blk).(*ssa.If)
+		if !ok {
+			continue
+		}
+		e := condEdge(ifi, b)
+		if e == 0 {
+			continue
+		}
+		for _, inl := range []bool{false, true} {
+			w.inlineHelpers = inl
+			a, ok := w.atomOf(ifi.Cond)
+			w.inlineHelpers = false
+			if !ok {
+				continue
+			}
+			fr, ok := f.relFor(a)
+			if !ok {
+				continue
+			}
+			onEdge := a.Rel
+			if e < 0 {
+				onEdge = relAll &^ a.Rel
+			}
+			if onEdge&^fr == 0 {
+				return true
+			}
+		}
+	}
+	return false
+}
